@@ -72,8 +72,8 @@ const (
 type c18Side struct {
 	r      *rand.Rand
 	ghosts func(phase string) []c18Ghost // further never-included transactions (may be nil)
-	simP   float64                        // share of block transactions that are also simulated
-	nQuery int                            // random module queries per phase
+	simP   float64                       // share of block transactions that are also simulated
+	nQuery int                           // random module queries per phase
 	qs     []c18Q
 	stats  map[string]int
 	txSvc  bool
@@ -125,7 +125,7 @@ func (n *c18Net) dryRunQueries(sample []byte) []c18Q {
 	add("dry.validate_create_market", ex+"ValidateCreateMarket", &exchange.QueryValidateCreateMarketRequest{CreateMarketRequest: &exchange.MsgGovCreateMarketRequest{
 		Authority: authtypes.NewModuleAddress("gov").String(),
 		Market: exchange.Market{MarketDetails: exchange.MarketDetails{Name: "dry"}, AcceptingOrders: true,
-			AccessGrants:    []exchange.AccessGrant{{Address: a3, Permissions: exchange.AllPermissions()}},
+			AccessGrants:     []exchange.AccessGrant{{Address: a3, Permissions: exchange.AllPermissions()}},
 			ReqAttrCreateAsk: []string{c18KycNam}}}})
 	add("dry.validate_manage_fees", ex+"ValidateManageFees", &exchange.QueryValidateManageFeesRequest{ManageFeesRequest: &exchange.MsgGovManageFeesRequest{
 		Authority: authtypes.NewModuleAddress("gov").String(), MarketId: 1, AddFeeCreateAskFlat: []sdk.Coin{sdk.NewInt64Coin("dryfee", 1)}}})
@@ -683,4 +683,102 @@ func c18TightenCase(t *testing.T, w *CaseWriter) {
 		w.Count("params_tightened_scenario")
 		w.Nontrivial("params-tightened/" + f.name)
 	}
+}
+
+// ---------- scripted history: every governance family, then the transactions that depend on it ----------
+
+// c18ParamScript runs, on a primary node with side traffic, a short scripted history in which
+// governance proposals change parameters (two of them with a later failing message, so that the
+// whole proposal is rolled back) and the following blocks carry transactions that are accepted
+// under exactly one of the old / new values; the blocks are then replayed without side traffic in
+// this process and on a shadow node that is re-opened after every block.  The probes of the side
+// traffic (Simulate of a MsgAddMarker and friends before AND after every FinalizeBlock) are what
+// plants stale reads in the mempool state of the block in which a proposal passes.
+func c18ParamScript(t *testing.T, r *rand.Rand, w *CaseWriter, genesis c18Genesis) {
+	label := "params-script"
+	ref, err := c18Start(t, genesis, "")
+	if err != nil {
+		t.Fatalf("%s: start: %v", label, err)
+	}
+	defer ref.close()
+	g := &c18Gen{t: t, r: r, n: ref, w: w, kinds: map[string]int{}, lcBusy: map[string]bool{}, ghostSeq: map[int]uint64{}}
+	ref.side = c18NewSide(r)
+	ref.side.ghosts = g.ghostTxs
+	ref.side.qs = c18Queries(ref, []string{c18Root, c18KycNam}, []string{"rcoin1"}, nil)
+	sc := c18Script{Genesis: genesis}
+	gov := authtypes.NewModuleAddress("gov").String()
+	run := func(dt time.Duration, must ...*c18Tx) {
+		bl := g.buildBlock(0, false, must)
+		at := g.n.now.Add(dt)
+		if _, err := g.runBlock(bl, at); err != nil {
+			t.Fatalf("%s: %v", label, err)
+		}
+		sc.Blocks = append(sc.Blocks, c18Block{TimeUnix: at.Unix(), Txs: bl.txs})
+	}
+	propose := func(kind string, proposer int, msgs ...sdk.Msg) *c18Tx {
+		g.propSeq++
+		msg, err := govv1.NewMsgSubmitProposal(msgs, sdk.NewCoins(sdk.NewInt64Coin(c18Stake, 10_000_000)), g.astr(proposer), "", fmt.Sprintf("script proposal %d", g.propSeq), "verif", false)
+		if err != nil {
+			t.Fatalf("%s: %v", label, err)
+		}
+		return &c18Tx{kind: kind, gas: 1_200_000, signers: []int{proposer}, msgs: []sdk.Msg{msg}}
+	}
+	failing := msgfeestypes.NewMsgRemoveMsgFeeProposalRequest("/verif.no.such.Msg", gov)
+	addMarker := func(who int, denom string) *c18Tx {
+		msg := markertypes.NewMsgAddMarkerRequest(denom, sdkmath.NewInt(100), g.addr(who), g.addr(who), markertypes.MarkerType_Coin, false, false, false, nil, 0, 0)
+		msg.AccessList = []markertypes.AccessGrant{{Address: g.astr(who), Permissions: []markertypes.Access{markertypes.Access_Admin, markertypes.Access_Mint}}}
+		return &c18Tx{kind: "script-marker-add", signers: []int{who}, msgs: []sdk.Msg{msg}}
+	}
+	bind := func(name string, extra int64) *c18Tx {
+		rec := nametypes.NewNameRecord(name, g.addr(3), false)
+		return &c18Tx{kind: "script-name-bind", extra: sdk.NewCoins(sdk.NewInt64Coin(c18Stake, extra)), signers: []int{1}, msgs: []sdk.Msg{nametypes.NewMsgBindNameRequest(rec, nametypes.NewNameRecord(c18Root, g.addr(1), false))}}
+	}
+	attr := func(val string) *c18Tx {
+		return &c18Tx{kind: "script-attr-add", extra: sdk.NewCoins(sdk.NewInt64Coin(c18Stake, 600)), signers: []int{1},
+			msgs: []sdk.Msg{attrtypes.NewMsgAddAttributeRequest(g.astr(5), g.addr(1), c18KycNam, attrtypes.AttributeType_String, []byte(val))}}
+	}
+	mp := ref.app.MarkerKeeper.GetParams(ref.queryCtx())
+	run(5 * time.Second)
+	// transactions under the initial parameters
+	run(6*time.Second, addMarker(10, "zz1s"), addMarker(11, "Lc-1.s"), bind("s1", 1000))
+	run(6*time.Second, attr("vv"))
+	// the proposals (the genesis delegator's votes are added to the following blocks)
+	mp.UnrestrictedDenomRegex = c18Regexes[2]
+	run(6*time.Second, propose("script-gov:marker-regex", 9, &markertypes.MsgUpdateParamsRequest{Authority: gov, Params: mp}))
+	run(6*time.Second, propose("script-gov-rolled-back:msgfee", 13, msgfeestypes.NewMsgUpdateMsgFeeProposalRequest(sdk.MsgTypeURL(&nametypes.MsgBindNameRequest{}), sdk.NewInt64Coin(c18Stake, 1500), g.astr(9), "2500", gov), failing))
+	run(6*time.Second, propose("script-gov-rolled-back:name-params", 9, nametypes.NewMsgUpdateParamsRequest(32, 1, 16, true, gov), failing))
+	run(6*time.Second, propose("script-gov:attribute-params", 13, attrtypes.NewMsgUpdateParamsRequest(gov, 1)))
+	// the voting periods (60 s) end one after the other in these blocks
+	for i := 0; i < 5; i++ {
+		run(20*time.Second, addMarker(12, fmt.Sprintf("lc%dw", i)))
+	}
+	// transactions whose outcome depends on the values now in force
+	run(6*time.Second, addMarker(10, "zz2s"), addMarker(11, "lc2s"), bind("a", 1000))
+	run(6*time.Second, addMarker(10, "Lc-3.s"), addMarker(11, "lc3s"), attr("ww"))
+	run(6*time.Second, bind("s2", 1000))
+	run(6*time.Second, attr("w"))
+	// back to the default regex, and once more
+	mp.UnrestrictedDenomRegex = c18Regexes[0]
+	run(6*time.Second, propose("script-gov:marker-regex", 9, &markertypes.MsgUpdateParamsRequest{Authority: gov, Params: mp}))
+	for i := 0; i < 4; i++ {
+		run(20*time.Second, addMarker(12, fmt.Sprintf("zz%dw", i)))
+	}
+	run(6*time.Second, addMarker(10, "zz4s"), addMarker(11, "Lc-4.s"), bind("s3", 1000))
+	run(6*time.Second, attr("x"))
+	w.CountN("param_script_blocks", int64(len(sc.Blocks)))
+	w.CountN("param_script_tx_ok", int64(ref.txOK))
+	w.CountN("param_script_tx_failed", int64(ref.txFail))
+	for _, k := range c18SortedKeys(g.kinds) {
+		w.CountN("script_tx_"+k, int64(g.kinds[k]))
+	}
+	d2, _, err := c18Replay(t, sc, "", nil, 0)
+	if err != nil {
+		d2 = append(d2, "error: "+err.Error())
+	}
+	// the reference digests start after the first (unrecorded) block of c18Start's chain: here
+	// every block was recorded, so they align
+	w.Add(fmt.Sprintf("CDigests %s \"rerun\" %s %s", coqStr(label), c18StrList(ref.digests), c18StrList(d2)),
+		map[string]any{"kind": "digests", "label": label, "mode": "rerun", "blocks": len(sc.Blocks), "txs_ok": ref.txOK, "txs_failed": ref.txFail, "first_difference": c18FirstDiff(ref.digests, d2)})
+	c18Shadow(t, w, r, label, sc, ref.digests, 1.0, "shadow")
+	w.Nontrivial("params-script")
 }
